@@ -41,6 +41,8 @@ type exExec struct {
 	skip      bool // returns without calling resolve
 	workStyle bool
 	minDur    time.Duration // rate-limit wrapper duration (0 = none)
+	rlCancel  context.CancelFunc
+	rlDone    bool // the rate limiter's context has been cancelled (no minimum duration from then on)
 	gateR     chan struct{}
 	gateT     chan struct{}
 	rOpen     bool
@@ -62,6 +64,8 @@ type exCall struct {
 	isStart bool
 	skip    bool
 	minDur  time.Duration
+	rlCtx   context.Context
+	rlCan   context.CancelFunc
 }
 
 type exMachine struct {
@@ -145,7 +149,7 @@ var exErrTag = errors.New("exclstep result error")
 func (m *exMachine) body(c *exCall, workStyle bool, resolve func(any, error)) (any, error) {
 	m.mu.Lock()
 	e := &exExec{id: len(m.execs), key: c.key, fnOf: c.id, start: m.tick(), startAt: time.Now(), skip: c.skip, workStyle: workStyle,
-		minDur: c.minDur, gateR: make(chan struct{}), gateT: make(chan struct{})}
+		minDur: c.minDur, rlCancel: c.rlCan, gateR: make(chan struct{}), gateT: make(chan struct{})}
 	if m.released {
 		e.rOpen, e.tOpen = true, true
 		close(e.gateR)
@@ -236,7 +240,7 @@ func (m *exMachine) checkLocked() (fsig, fmsg string) {
 	}
 	// rate-limited executions keep the key busy for the minimum duration
 	for i, e := range m.execs {
-		if e.minDur <= 0 || m.rlCtx.Err() != nil {
+		if e.minDur <= 0 || e.rlDone || m.rlCtx.Err() != nil {
 			continue
 		}
 		for _, n := range m.execs[i+1:] {
@@ -253,7 +257,7 @@ func (m *exMachine) checkLocked() (fsig, fmsg string) {
 		}
 		a := m.answering(c)
 		resolved := a != nil && (a.resolveAt != 0 || a.returnAt != 0)
-		if resolved && a.resolveAt == 0 && a.minDur > 0 && m.rlCtx.Err() == nil && time.Since(a.startAt) < a.minDur {
+		if resolved && a.resolveAt == 0 && a.minDur > 0 && !a.rlDone && m.rlCtx.Err() == nil && time.Since(a.startAt) < a.minDur {
 			// the work function returned without resolving, but it is wrapped by the rate limiter, which
 			// only returns (and lets the forced resolve-not-called outcome happen) after its minimum duration
 			resolved = false
@@ -341,7 +345,7 @@ func (m *exMachine) checkLocked() (fsig, fmsg string) {
 		// the previous execution of a rate-limited batch may still be inside its wrapper
 		busyUntil := time.Time{}
 		for _, e := range m.execs {
-			if e.key == key && e.minDur > 0 && m.rlCtx.Err() == nil {
+			if e.key == key && e.minDur > 0 && !e.rlDone && m.rlCtx.Err() == nil {
 				if u := e.startAt.Add(e.minDur); u.After(busyUntil) {
 					busyUntil = u
 				}
@@ -406,7 +410,8 @@ func (m *exMachine) ruleCall(t *rapid.T) {
 		opts := []bigbuff.ExclusiveOption{bigbuff.ExclusiveKey(k), bigbuff.ExclusiveWork(work), bigbuff.ExclusiveWait(wait)}
 		if rapid.IntRange(0, 3).Draw(t, "rateLimit") == 0 {
 			c.minDur = rapid.SampledFrom([]time.Duration{time.Millisecond, time.Second}).Draw(t, "minDur")
-			opts = append(opts, bigbuff.ExclusiveRateLimit(m.rlCtx, c.minDur))
+			c.rlCtx, c.rlCan = context.WithCancel(m.rlCtx) // its own context: a rule may cancel it while its work runs
+			opts = append(opts, bigbuff.ExclusiveRateLimit(c.rlCtx, c.minDur))
 		}
 		if rapid.Bool().Draw(t, "shuffleOpts") {
 			opts[0], opts[1] = opts[1], opts[0]
@@ -455,6 +460,30 @@ func (m *exMachine) ruleRelease(t *rapid.T) {
 	m.settle()
 }
 
+// ruleCancelRateLimit cancels the context of a rate limiter whose wrapped work function is executing right now. The
+// limiter's context only governs the limiter ("cleaning up the resources required to apply the rate limit"): the work
+// function keeps running and keeps its key until it returns; merely the minimum duration no longer applies.
+func (m *exMachine) ruleCancelRateLimit(t *rapid.T) {
+	m.mu.Lock()
+	var cand []*exExec
+	for _, e := range m.execs {
+		if e.minDur > 0 && !e.rlDone && e.returnAt == 0 && e.rlCancel != nil {
+			cand = append(cand, e)
+		}
+	}
+	m.mu.Unlock()
+	if len(cand) == 0 {
+		t.Skip("no rate-limited work function is executing")
+	}
+	e := cand[rapid.IntRange(0, len(cand)-1).Draw(t, "rlExec")]
+	m.mu.Lock()
+	e.rlDone = true
+	m.mu.Unlock()
+	e.rlCancel()
+	m.tr("cancelRateLimit(e%d)", e.id)
+	m.settle()
+}
+
 func (m *exMachine) ruleAdvance(t *rapid.T) {
 	d := rapid.SampledFrom([]time.Duration{500 * time.Microsecond, time.Millisecond, time.Second, 30 * time.Minute, time.Hour}).Draw(t, "adv")
 	time.Sleep(d)
@@ -495,6 +524,7 @@ func exRun(t *rapid.T, st *vkit.Stats, prof string) {
 	add("call", 5, m.ruleCall)
 	add("release", 5, m.ruleRelease)
 	add("advance", 2, m.ruleAdvance)
+	add("cancelRateLimit", 1, m.ruleCancelRateLimit)
 	t.Repeat(acts)
 
 	// ---- drain: open every gate, let every wait elapse
